@@ -253,5 +253,80 @@ class LongRun(Part):
         return res
 
 
+class AfterOtherJobs(Part):
+    name = "dump_after_jobs_with_other_options"
+    desc = "every sequence of <=2 earlier jobs (library or main, other networks / prefixes / salt / host bits) before a run with -d in the same process: its map agrees with the mapping function for ITS salt and options"
+
+    JOBS = [{"nets": ["11.11.0.0/16"]}, {"nets": ["44.55.66.7/32", "200.7.0.0/16"], "B": 8}, {"prefixes": ["10.0.0.0/8"]},
+            {"salt": "first-salt", "nets": ["138.7.0.0/16"]}, {"main": ["--preserve-addresses", "11.11.0.0/16"]}]
+    TEXT = "peer 11.11.62.24\npeer 11.229.62.24\npeer 44.55.66.7\npeer 44.55.66.9\npeer 200.7.6.5\npeer 138.7.6.5\npeer 10.1.2.3\npeer 2001:db8::1\n"
+    DEFAULTS = ["0.0.0.0/1", "128.0.0.0/2", "192.0.0.0/3", "224.0.0.0/4", "10.0.0.0/8", "172.16.0.0/12", "192.168.0.0/16"]
+
+    def __init__(self, tier, seed):
+        self.tier, self.seed = tier, seed
+
+    def cases(self):
+        return [{"first": i, "B": B} for i in range(len(self.JOBS)) for B in (0, 8)]
+
+    def _job(self, job, root, tag):
+        import io
+
+        from netconan.anonymize_files import FileAnonymizer
+        from netconan.netconan import main
+
+        with seams.capture_logs(), seams.capture_stdio():
+            if "main" in job:
+                ind = os.path.join(root, "ji" + tag)
+                seams.write_tree(ind, {"f.cfg": self.TEXT})
+                main(["-a", "-s", "jobSalt", "-i", ind, "-o", os.path.join(root, "jo" + tag)] + job["main"])
+                return
+            fa = FileAnonymizer(anon_pwd=False, anon_ip=True, salt=job.get("salt", "jobSalt"),
+                                preserve_networks=None if job.get("nets") is None else list(job["nets"]),
+                                preserve_prefixes=None if job.get("prefixes") is None else list(job["prefixes"]),
+                                preserve_suffix_v4=job.get("B", 0), preserve_suffix_v6=job.get("B", 0))
+            fa.anonymize_io(io.StringIO(self.TEXT), io.StringIO())
+
+    def run(self, case):
+        from netconan.netconan import main
+
+        res = Res()
+        root = seams.scratch_dir("c17j")
+        try:
+            seqs = [[case["first"]]] + [[case["first"], j] for j in range(len(self.JOBS))]
+            if "seq" in case:
+                seqs = [case["seq"]]
+            for n, seq in enumerate(seqs):
+                seams.restore_globals()
+                for k, j in enumerate(seq):
+                    self._job(self.JOBS[j], root, "%d-%d" % (n, k))
+                ind, outd, mp = os.path.join(root, "i%d" % n), os.path.join(root, "o%d" % n), os.path.join(root, "m%d.txt" % n)
+                seams.write_tree(ind, {"t.cfg": self.TEXT})
+                with seams.capture_logs(), seams.capture_stdio():
+                    main(["-a", "-s", "second-salt", "--preserve-host-bits", str(case["B"]), "-i", ind, "-o", outd, "-d", mp])
+                seams.restore_globals()
+                res.states += 1
+                res.transitions += len(seq) + 1
+                fresh4 = ipdom.make_v4(["md5", "second-salt"], case["B"], list(self.DEFAULTS), None)
+                fresh6 = ipdom.make_v6(["md5", "second-salt"], case["B"])
+                lines = open(mp).read().splitlines()
+                res.nt((tuple(seq), case["B"]))
+                res.out(tuple(lines[:4]))
+                for ln in lines:
+                    res.evals += 1
+                    a, b = [ipaddress.ip_address(x) for x in ln.split("\t")]
+                    f = fresh4 if a.version == 4 else fresh6
+                    if f.anonymize(int(a)) != int(b):
+                        res.violation("dump-pair-disagrees-with-mapping|after-other-jobs",
+                                      "after jobs %r a run with salt 'second-salt', host bits %d and default options dumps %s -> %s; its mapping function gives %s" % (
+                                          [self.JOBS[j] for j in seq], case["B"], a, b, type(a)(f.anonymize(int(a)))),
+                                      dict(case, seq=list(seq)))
+                        break
+            if "seq" not in case:
+                res.samples.append({"first": self.JOBS[case["first"]], "B": case["B"], "sequences": len(seqs)})
+        finally:
+            shutil.rmtree(root, ignore_errors=True)
+        return res
+
+
 def parts(tier, seed):
-    return [GraphPart(tier, seed), FilePart(tier, seed), LongRun(tier, seed)]
+    return [GraphPart(tier, seed), FilePart(tier, seed), LongRun(tier, seed), AfterOtherJobs(tier, seed)]
